@@ -104,6 +104,14 @@ class Prop(common.PropertyCheck):
         for i in range(self.budget(24, 240)):
             yield {'cont': 'sample', 'D': rng.randrange(4, 8), 'N': rng.choice([1, 7]), 'form': ['none', 'list', 'scalar'][i % 3], 'seed': rng.randrange(1 << 30),
                    'at': ['none', 'partial'][i % 2], 'ag': 'none', 'res': 'none', 'bad': None, 'dt': ['I', 'F'][(i // 2) % 2], 'presl': ['even', 'odd', 'third'][i % 3]}
+        # conversions in two steps with a channel selection in between
+        for i in range(self.budget(18, 150)):
+            yield {'cont': 'sample', 'D': rng.randrange(3, 7), 'N': rng.choice([1, 7]), 'form': ['none', 'list'][i % 2], 'seed': rng.randrange(1 << 30),
+                   'at': 'none', 'ag': 'none', 'res': 'none', 'bad': None, 'dt': ['I', 'F'][i % 2], 'two_step': True}
+        # explicit settings whose second entry is zero: a1 = 0 given by the caller is the caller's a1 (the law then gives 0 everywhere)
+        for i in range(self.budget(12, 100)):
+            yield {'cont': ['sample', 'array'][i % 2], 'D': rng.randrange(2, 5), 'N': rng.choice([1, 5]), 'form': ['list', 'scalar'][i % 2], 'seed': rng.randrange(1 << 30),
+                   'at': 'given', 'ag': 'none', 'res': 'given', 'bad': None, 'dt': 'I', 'a1_zero': True}
         # samples with a time channel that has an amplifier setting of its own (gain 0.01, or a log amplifier): "all channels" includes it
         for i in range(self.budget(18, 180)):
             yield {'cont': 'sample', 'D': rng.randrange(3, 6), 'N': rng.choice([1, 7]), 'form': ['none', 'none', 'list'][i % 3], 'seed': rng.randrange(1 << 30),
@@ -205,6 +213,8 @@ class Prop(common.PropertyCheck):
             res = settings('given', lambda: 256)
         else:
             pool = [(0, 0), (0., 0.), (4, 1), (4.5, 0.5), (3, 1), (2, 1), (7.3, 1.), (8, 1)] + ([(0, 1), (0, 0.5), (0., 10.), (0, 1)] if case.get('zero_dec') else [])
+            if case.get('a1_zero'):
+                pool = [(4, 0), (4., 0.), (3, 0), (4, 1), (2.5, 0.)]
             at = settings(case['at'], lambda: r.choice(pool))
         ag = settings(case['ag'], lambda: r.choice([0.5, 2., 8., 1.]))
         if not case.get('many'):
@@ -251,6 +261,23 @@ class Prop(common.PropertyCheck):
             if not case.get('presl'):
                 raise
             return {'accessor_err': 'selecting the channels of the loaded sample raised %s: %s' % (type(e).__name__, str(e)[:80])}
+        if case.get('two_step') and names and len(names) >= 3:
+            # a conversion of one channel, then a selection of the other channels in another order, then their conversion: the same as converting that
+            # selection of the loaded sample directly (an earlier conversion leaves nothing behind that a later one could trip over)
+            try:
+                r1 = FlowCal.transform.to_rfi(d, [names[0]])
+                keep = list(reversed(names[1:]))
+                a = FlowCal.transform.to_rfi(r1[:, keep])
+                b = FlowCal.transform.to_rfi(d[:, keep])
+                if not np.array_equal(np.asarray(a), np.asarray(b), equal_nan=True) or a.range() != b.range():
+                    cols = [keep[j] for j in range(len(keep)) if not np.array_equal(np.asarray(a)[:, j], np.asarray(b)[:, j], equal_nan=True)]
+                    return {'accessor_err': 'to_rfi(%s) -> [:, %s] -> to_rfi(): channels %s differ from the conversion of the same selection of the loaded sample' % (names[0], keep, cols or 'ranges')}
+                a2 = FlowCal.transform.to_rfi(FlowCal.transform.to_rfi(d, names[:2])[:, names[2:]])
+                b2 = FlowCal.transform.to_rfi(d[:, names[2:]])
+                if not np.array_equal(np.asarray(a2), np.asarray(b2), equal_nan=True) or a2.range() != b2.range():
+                    return {'accessor_err': 'to_rfi(first two channels) -> drop them -> to_rfi(): differs from the conversion of the remaining channels of the loaded sample'}
+            except Exception as e:
+                return {'accessor_err': 'two-step conversion raised %s: %s' % (type(e).__name__, str(e)[:80])}
         try:
             out = {'meta': meta_of(d), 'in': arr_bits(d), 'in_range': range_bits(d),
                    'args': {'channels': None if ch is None else ({'list': ch} if isinstance(ch, list) else {'scalar': ch}),
